@@ -96,6 +96,10 @@ func ruleC11a(c *Ctx) {
 			case lock != nil && li.heldAt(a.Instr)[lock] == lockW:
 				top := topFunc(fn) // a function literal inside a registration operation belongs to it
 				ok := top.Name() == "Add" || top.Name() == "Remove" || top.Name() == "addHandler"
+				// any other operation of the container that is not part of serving a request (a new RemoveAll, Replace...)
+				if recvTypeName(top) == "Container" && !p.Roles().RequestPath[top] {
+					ok = true
+				}
 				// any operation that itself registers on the container's mux is a registration operation (Handle)
 				for _, reg := range muxRegistrations(p) {
 					if (reg.Fn == fn || reg.Fn == top) && recvTypeName(top) == "Container" {
@@ -103,7 +107,7 @@ func ruleC11a(c *Ctx) {
 					}
 				}
 				c.check(ok, name, construct+" by a registration operation under the write lock", p.ipos(a.Instr), "held: "+lockSetString(li.heldAt(a.Instr)),
-					"the registration state is written by a function other than Add/Remove")
+					"the registration state is written while a request is served (by a function on the request path), or by a function that is not an operation of the container")
 			default:
 				c.bad(name, construct+" outside Add/Remove's critical section", p.ipos(a.Instr), "registration state changed without the write lock (held: "+lockSetString(li.heldAt(a.Instr))+")")
 			}
